@@ -269,6 +269,7 @@ def rule_defn(which):
                     else:
                         o.check(False, prog.pretty[p], name + "-from-counts", "%s is decided from order / size / degree counts alone; digraphs with "
                                 "equal counts can differ in it (the adjacency of no pair of vertices is ever read)" % name, counts[0]["span"])
+        size_precheck_formulas(crate, o)
         closure_defs(crate, o, PRED_CLOSURES)
         # is_subdigraph: V(self) must be tested for membership in V(d)
         for p in impl_fns(crate, "graaf::op::is_subdigraph::IsSubdigraph", "is_subdigraph"):
@@ -449,6 +450,82 @@ PRED_CLOSURES = [
      unary(HAS_ARC, ("0", "1"))),
     ("graaf::op::is_subdigraph::IsSubdigraph", "is_subdigraph", "all", ARCS, 2, "conjunct", unary(HAS_ARC, ("0", "1"))),
 ]
+
+
+SIZE_FORMULAS = {
+    # predicate -> (comparison the precheck may use, closed form of the compared quantity)
+    "is_tournament": (("Eq", "Ne"), lambda n: n * (n - 1) // 2),
+    "is_semicomplete": (("Lt", "Le", "Eq", "Ne"), lambda n: n * (n - 1) // 2),
+    "is_complete": (("Eq", "Ne"), lambda n: n * (n - 1)),
+}
+
+
+def size_precheck_formulas(crate, o):
+    """is_tournament / is_semicomplete / is_complete may compare size() with a closed form of the order before scanning the
+    pairs; the closed form (extracted as a term over the order, evaluated with unsigned integer arithmetic for orders 1..64)
+    must be n(n-1)/2 resp. n(n-1): `order * ((order - 1) / 2)` is smaller for every even order."""
+    prog = crate.prog
+
+    def is_order(t):
+        if t[0] == "len" and t[1][0] == "at" and isinstance(t[1][1], str) and t[1][1] in ("A1.arcs",):
+            return True
+        if t[0] == "mem" and t[1] == "A1.order" and t[3] is None:
+            return True
+        return t[0] == "call" and t[1].endswith("Order::order") and t[3] and t[3][0][0] == "at" and t[3][0][1] == "A1"
+
+    def is_size(t):
+        if t[0] == "call" and t[1].endswith("Size::size") and t[3] and t[3][0][0] == "at" and t[3][0][1] == "A1":
+            return True
+        return False
+
+    def ev_(t, n):
+        if is_order(t):
+            return n
+        if t[0] == "const" and isinstance(t[2], int):
+            return t[2]
+        if t[0] == "bin":
+            a, b = ev_(t[2], n), ev_(t[3], n)
+            if a is None or b is None:
+                return None
+            op = t[1]
+            if op == "Add":
+                return a + b
+            if op == "Sub":
+                return a - b if a >= b else None
+            if op == "Mul":
+                return a * b
+            if op == "Div":
+                return a // b if b else None
+            if op == "Shr":
+                return a >> b
+            if op == "Shl":
+                return a << b
+            if op == "BitAnd":
+                return a & b
+        return None
+    for name, (cmps, closed) in SIZE_FORMULAS.items():
+        trait = "graaf::op::%s::%s" % (name, "".join(w.capitalize() for w in name.split("_")))
+        for p in impl_fns(crate, trait, name):
+            if not prog.fns[p]["path"].startswith("graaf::repr::") or prog.fns[p]["path"].startswith("graaf::repr::adjacency_map"):
+                continue        # AdjacencyMap: order is a count of keys, same formula, but its own terms; left to from-counts
+            an = crate.an(p)
+            for ev in an.events:
+                if ev["k"] != "switch":
+                    continue
+                d = ev["discr"]
+                if d[0] == "un" and d[1] == "Not":
+                    d = d[2]
+                if not (d[0] == "bin" and d[1] in ("Eq", "Ne", "Lt", "Le")):
+                    continue
+                for S, E in ((d[2], d[3]), (d[3], d[2])):
+                    if not is_size(S) or ev_(E, 3) is None:
+                        continue
+                    bad = [n for n in range(1, 65) if ev_(E, n) is not None and ev_(E, n) != closed(n)]
+                    o.instances += 1
+                    o.check(not bad and d[1] in cmps, prog.pretty[p], name + "-size-formula", "%s compares size() with a closed form of the order "
+                            "that is not %s (first difference at order %s): digraphs that satisfy the definition are rejected (or the "
+                            "reverse) before any pair is looked at" % (name, "n(n-1)" if name == "is_complete" else "n(n-1)/2",
+                                                                      bad[0] if bad else "-"), ev["span"])
 
 
 def consumer_of(crate, parent, cpath):
@@ -749,6 +826,22 @@ def walk_clause(crate, o, p):
                                 return i
                         return None
                     okc = widx(a1) == ("const", "usize", 0) and widx(a2) == one
+            elif r[0] == "call" and r[1] == "alloc::collections::btree::set::BTreeSet::contains" and len(r[3]) == 2 and winf \
+                    and r[3][0][0] == "at" and r[3][0][1].endswith(".arcs") and r[3][1][0] == "at" and r[3][1][2] is None:
+                # EdgeList: has_arc(u, v) written out as self.arcs.contains(&(u, v))
+                vals = [t for (var, ver), t in can.term_of.items() if var == r[3][1][1] and t[0] == "agg"]
+                if len(vals) == 1 and vals[0][1] == "tuple" and len(vals[0][3]) == 2:
+                    from .schema import elem_access
+
+                    def widx2(t):
+                        if t[0] == "mem" and t[3] is not None:
+                            if t[3][0] == "elem" and t[3][1] == ("arg", 2):
+                                return t[3][2]
+                            c_, i_ = elem_access(t[3])
+                            if c_ is not None and (c_ == ("arg", 2) or (c_[0] == "at" and c_[1] == "A2")):
+                                return i_
+                        return None
+                    okc = widx2(vals[0][3][0]) == ("const", "usize", 0) and widx2(vals[0][3][1]) == one
         o.check(okc, who, "walk-pair", "the pair test is not has_arc(u, v) on the two consecutive vertices", ev["span"])
         if len(rets) == 1:
             rv = rets[0]["val"]
